@@ -1,22 +1,23 @@
-(** The append-only file (src/storage/aof.rs, server.rs process_normal_command).
+(** The append-only file (src/storage/aof.rs, server.rs process_normal_command), after the
+    repairs 8d99f01 (GETSET, HMSET, PEXPIRE, XREADGROUP logged), 7ef6fad (SELECT records) and
+    39510e9 (binary-safe load).
 
     The log itself is kept by Model/Server.v: [s_aof] receives the whole command
     ([parts], name included) BEFORE dispatch whenever its upper-cased name is in
-    [Generated.write_commands], whatever the outcome of the command
-    (server.rs "Log to AOF for write commands").  Paths that reach storage without
-    going through process_normal_command append nothing.
+    [Generated.write_commands], whatever the outcome of the command, preceded by a
+    [SELECT db] record when the database differs from that of the last command written
+    ([log_aof_in]).  Paths that reach storage without going through
+    process_normal_command append nothing.
 
     This file adds
     - the bytes of the file: append_command serialises RespFrame::Array(Some(parts))
       with serialize_resp_frame and flushes (the fsync policy only decides when the
       bytes reach the disk, not which bytes) - so the file is the concatenation of
       [ser (FArray parts)] in execution order;
-    - [replay]: re-execution of a command list on an empty server, one connection,
-      database 0 (the log carries no SELECT) - what a redo of the file means.  The
-      implementation's own start-up replay (aof.rs load / replay_command) executes
-      nothing: [restart] below is the model of THAT (code as it is);
-    - [load_ok]: AofEngine::load reads the file with BufRead::lines(), which fails on
-      a line that is not valid UTF-8, and the failure aborts Server::new. *)
+    - [replay]: re-execution of the file's commands, SELECT records included, on an empty
+      server over one connection - what a redo of the file means.  The implementation's own
+      start-up replay (aof.rs load / replay_command) executes nothing: [restart] below is
+      the model of THAT (code as it is). *)
 From Ferrous Require Import Base.Bytes Generated Model.Resp Model.Types Model.Strings
   Model.Server Model.Conn.
 Open Scope Z_scope.
@@ -25,7 +26,9 @@ Open Scope Z_scope.
 Definition aof_frame (parts : list frame) : bytes := fst (ser no_dprint (FArray parts)).
 (** [log] oldest command first *)
 Definition aof_file (log : list (list frame)) : bytes := concat (map aof_frame log).
-Definition aof_log (s : server) : list (list frame) := rev (s_aof s).
+(** the records of the file, oldest first: process boundaries leave no bytes *)
+Definition is_record (p : list frame) : bool := match p with [] => false | _ => true end.
+Definition aof_log (s : server) : list (list frame) := rev (filter is_record (s_aof s)).
 Definition aof_bytes (s : server) : bytes := aof_file (aof_log s).
 
 (** what a reader of the file decodes (the same RESP reader as everywhere else) *)
@@ -34,9 +37,13 @@ Definition aof_decode (file : bytes) : list frame * status * bytes := drain_buf 
 (** ---- redo ---- *)
 Definition replay_conn : Z := 1.
 Definition replay_init : server := connect (init_server None) replay_conn.
-(** one logged command, with the oracle for its random choice if it has one *)
+Definition conn_db (s : server) (c : Z) : Z :=
+  match zlookup c (s_conns s) with Some cn => c_db cn | None => 0 end.
+(** one record of the file sent over the redo connection, with the oracle for its random
+    choice if it has one: a SELECT record moves the connection, any other command runs in
+    the database the connection is in *)
 Definition replay_step (now : Z) (s : server) (po : list frame * option frame) : server :=
-  snd (normal_command now s replay_conn 0 (fst po) (snd po)).
+  snd (normal_command now s replay_conn (conn_db s replay_conn) (fst po) (snd po)).
 Definition replay_o (now : Z) (log : list (list frame * option frame)) : server :=
   fold_left (replay_step now) log replay_init.
 Definition no_oracle (log : list (list frame)) : list (list frame * option frame) :=
@@ -49,7 +56,7 @@ Fixpoint replay_run (now : Z) (s : server) (log : list (list frame * option fram
   match log with
   | [] => (rev acc, s)
   | (parts, o) :: r =>
-      match normal_command now s replay_conn 0 parts o with
+      match normal_command now s replay_conn (conn_db s replay_conn) parts o with
       | (rep, s') => replay_run now s' r (canon_reply (req_name (FArray parts)) rep :: acc)
       end
   end.
@@ -60,37 +67,12 @@ Definition dataset (d : db) : list (bytes * value * bool) :=
   map (fun ke => (fst ke, e_val (snd ke), has_ttl (snd ke))) (d_data d).
 
 (** ---- start-up (Server::new with appendonly yes, code as it is) ---- *)
-(** std::str::from_utf8: well-formed UTF-8 (no overlong forms, no surrogates, <= U+10FFFF) *)
-Definition cont (c : Z) : bool := (128 <=? c) && (c <=? 191).
-Fixpoint utf8_ok (b : bytes) : bool :=
-  match b with
-  | [] => true
-  | c :: r =>
-      if c <? 128 then utf8_ok r
-      else if (194 <=? c) && (c <=? 223) then
-        match r with c1 :: r1 => cont c1 && utf8_ok r1 | _ => false end
-      else if c =? 224 then
-        match r with c1 :: c2 :: r2 => (160 <=? c1) && (c1 <=? 191) && cont c2 && utf8_ok r2 | _ => false end
-      else if ((225 <=? c) && (c <=? 236)) || (c =? 238) || (c =? 239) then
-        match r with c1 :: c2 :: r2 => cont c1 && cont c2 && utf8_ok r2 | _ => false end
-      else if c =? 237 then
-        match r with c1 :: c2 :: r2 => (128 <=? c1) && (c1 <=? 159) && cont c2 && utf8_ok r2 | _ => false end
-      else if c =? 240 then
-        match r with c1 :: c2 :: c3 :: r3 => (144 <=? c1) && (c1 <=? 191) && cont c2 && cont c3 && utf8_ok r3 | _ => false end
-      else if (241 <=? c) && (c <=? 243) then
-        match r with c1 :: c2 :: c3 :: r3 => cont c1 && cont c2 && cont c3 && utf8_ok r3 | _ => false end
-      else if c =? 244 then
-        match r with c1 :: c2 :: c3 :: r3 => (128 <=? c1) && (c1 <=? 143) && cont c2 && cont c3 && utf8_ok r3 | _ => false end
-      else false
-  end.
-(** load: every line must be valid UTF-8 (a line feed is ASCII, so this is validity of
-    the whole file); the frames it then parses are handed to replay_command, which
-    executes nothing *)
-Definition load_ok (file : bytes) : bool := utf8_ok file.
-(** a restart on the same directory: None = the process exits during start-up; otherwise
-    an EMPTY dataset, no connections, and the file kept (opened in append mode) *)
-Definition restart (s : server) : option server :=
-  if load_ok (aof_bytes s) then
-    Some {| s_dbs := s_dbs (init_server (s_password s)); s_trk := s_trk (init_server (s_password s));
-            s_conns := []; s_password := s_password s; s_aof := s_aof s |}
-  else None.
+(** load (after 39510e9) feeds the file to the RESP parser in chunks: a file made of whole
+    frames - which it always is, Props/C11.v c11_file_is_whole_frames - parses; the frames are
+    handed to replay_command, which executes nothing.  A restart on the same directory
+    therefore comes up with an EMPTY dataset, no connections, no subscriptions, the file
+    kept (opened in append mode) and the engine's remembered database forgotten. *)
+Definition restart (s : server) : server :=
+  {| s_dbs := s_dbs (init_server (s_password s)); s_trk := s_trk (init_server (s_password s));
+     s_conns := []; s_password := s_password s; s_aof := aof_boundary :: s_aof s;
+     s_pubsub := s_pubsub (init_server (s_password s)) |}.
